@@ -67,7 +67,7 @@ def _inv_env(E, st, extra=None):
 
 def _check_inv(E, ls, st, ordinal, phase, extra_env=None):
     fr = E.frames[0]
-    fname = fr.qual.partition(":")[2]
+    fname = getattr(fr, "display", None) or fr.qual.partition(":")[2]
     for i, inv in enumerate(ls.invariants):
         g = E.spec_bool(inv, st, _inv_env(E, st, extra_env), E.frame.old, E.frame)
         ob = E.obl("%s.%s.inv%d.%s.%d" % (E.prop, fname, ordinal, phase, i), "inv." + phase, text=inv)
@@ -100,7 +100,7 @@ def exec_while(E, node, st):
     if node.orelse:
         raise Unsupported("while-else")
     fr0 = E.frames[0]
-    fname = fr0.qual.partition(":")[2]
+    fname = getattr(fr0, "display", None) or fr0.qual.partition(":")[2]
     # 1. invariant holds on entry
     _check_inv(E, ls, st, ordinal, "init")
     # 2. arbitrary iteration
